@@ -221,11 +221,14 @@ def check_c18(tier):
 
 # ================================================================================ C10 (checker level + solver level)
 def check_c10(tier, solver_stream=None):
-    chk = Check("C10", tier, "other")
+    chk = Check("C10", tier, "proof")
     pinned = ["C10_partial_cmp_is_componentwise_order", "C10_query_verdict", "C10_dominated_query_changes_nothing",
               "C10_store_is_always_an_antichain", "C10_pareto_front_semantics", "C10_threshold_sound",
               "C10_cmp_ranks_dominator_first", "C10_store_query_is_bucket_query", "C10_keyless_states_never_dominated"]
-    pr = check_proofs("C10", pinned)
+    pinned = pinned + ["C10_sequential_solver_with_dominance_returns_optimum", "C10_sequential_solver_with_strictly_admissible_rule",
+                       "C10_dominance_does_not_change_the_answer", "C10_REFUTED_for_merely_admissible_rules", "C10_REFUTED_without_values",
+                       "C10_exact_rule_is_strictly_admissible", "C10_solver_holds_on_table_family", "C10_example_rule_prunes"]
+    pr = check_proofs("C10+C10u", pinned)
     proof_coverage(chk, pr, "make theories/Props/C10.vo && coqc theories/Props/C10.v (Print Assumptions scanned)")
     for b, what in ((build_harness(), "harness"), (build_model(), "model driver")):
         if not b[0]:
@@ -323,7 +326,9 @@ def check_c10(tier, solver_stream=None):
     chk.cov["explanation"] = ("Checker level: closed Coq theorems (Props/C10.v) about the model of partial_cmp / cmp / is_dominated_or_insert for all query "
                               "sequences, tied to the code by exhaustive + random differential runs. Solver level (enabling the checker never changes the "
                               "optimum): NOT proved; open obligation C10_search_sound; validated by solver runs with admissible rules against exhaustive enumeration.")
-    chk.cov["open_obligations"] = ["C10_search_sound (dominance pruning inside the search preserves the optimum)"]
+    chk.cov["open_obligations"] = ["solver-level theorem for transition-monotone rules that are not strictly admissible (knapsack capacity): not proved",
+                                   "the solver-level clause is FALSE for merely value-to-go-admissible rules: known finding dominance-circular-pruning (refutation in Props/C10u.v)",
+                                   "pooled / cache / NoDupFringe / parallel configurations with a rule: correspondence + oracle only"]
     return chk.finish()
 
 
